@@ -5,7 +5,11 @@ import sys
 HERE = os.path.dirname(os.path.dirname(os.path.abspath(__file__)))
 REPO = os.environ.get('HEPH_REPO', '/repo')
 
+from props import _identity  # noqa: E402
+
 ID = 'C06'
+# modules whose functions must not keep state between calls (pyvc.statecheck.hidden_state_census, syntactic)
+HIDDEN_STATE_MODULES = ['src.ir.types', 'src.ir.builtins']
 LEVEL = 'proof'
 SIDECARS = ['types_sub', 'types_ctor']
 _T = 'src.ir.types.'
@@ -23,6 +27,8 @@ FUNCTIONS = [_T + f for f in (
                                                         'DoubleType')] + [
     'src.ir.groovy_types.%s.is_assignable' % c for c in ('IntegerType', 'ShortType', 'LongType', 'BigIntegerType',
                                                           'ByteType', 'FloatType', 'DoubleType')]
+SIDECARS = SIDECARS + [x for x in _identity.SIDECARS if x not in SIDECARS]
+FUNCTIONS = FUNCTIONS + [f for f in _identity.FUNCTIONS if f not in FUNCTIONS]
 TRUSTED = [
     'rule justification: Sub / Cont / SupStar are the least relations closed under the Horn rules of contracts/types_sub.py '
     '(written from the Kotlin/Java containment rules); a postcondition result ==> Sub(..) proved from the rules holds in '
